@@ -363,6 +363,8 @@ def build(seed, tier, focus='all'):
     root([field("max_volume", V, spelled=["skip"]), field("tags", vec(), multiple=True, spelled=["skip"]), field("other", O, spelled=["multiple"])])
     root([field("max_volume", V, spelled=["skip"]), field("rest", ty("recv", flat_inner), flatten=True)])
     root([field("max_volume", O, spelled=["skip", "multiple"]), field("other", O)], allow_unknown=True)
+    # .. on a member whose type has a value-for-absent of its own that differs from its `Default`
+    root([field("inner", ty("recv", leaf_fn), spelled=["skip"]), field("second", ty("recv", leaf_fn), spelled=["skip", "multiple"]), field("other", O)], max_items=2)
     root([field("krate", V, rename="crate"), field("this", O, rename="self"), field("up", O, rename="super"), field("me", O, rename="Self")], max_items=2)
 
     # --- hostile-input roots (C07): flags, nested receivers / enums / maps fed bodies that are not meta syntax
